@@ -363,7 +363,8 @@ def rotate_pillow_image(pillow_image, orientation):
     elif orientation != 'none':
         angle, flip = orientation
         if angle > 0:
-            rotation = getattr(Image.Transpose, f'ROTATE_{angle}')
+            # CSS angles are clockwise, Pillow's are counterclockwise
+            rotation = getattr(Image.Transpose, f'ROTATE_{360 - angle}')
             pillow_image = pillow_image.transpose(rotation)
         if flip:
             pillow_image = pillow_image.transpose(
